@@ -75,6 +75,21 @@ fn var_stub<K: AsRef<std::ffi::OsStr>>(_k: K) -> Result<String, std::env::VarErr
     }
 }
 
+/// Under Kani the stub above answers for the environment; in a native run (nd::search) stubs do
+/// not exist, so the real process environment is set instead.
+fn set_env_profile(e: u8) {
+    unsafe { ENV_PROFILE = e };
+    #[cfg(test)]
+    unsafe {
+        match e {
+            0 => std::env::remove_var("PX_PROFILE"),
+            1 => std::env::set_var("PX_PROFILE", "dev"),
+            2 => std::env::set_var("PX_PROFILE", "prd"),
+            _ => std::env::set_var("PX_PROFILE", "zz"),
+        }
+    }
+}
+
 fn any_values() -> [[Option<u8>; 2]; 3] {
     let mut v = [[None; 2]; 3];
     let mut s = 0;
@@ -137,7 +152,7 @@ fn c18_precedence_explicit_profile() {
     let p = if nd::any_bool() { Prof::Dev } else { Prof::Prod };
     // whatever PX_PROFILE says, an explicit profile wins ("rather than loading it from PX_PROFILE")
     let e: u8 = nd::u8_below(4);
-    unsafe { ENV_PROFILE = e };
+    set_env_profile(e);
     unsafe { LAST_PROFILE_ASKED = 0 };
     vtrace(&vals, Some(p), e);
     unsafe { fv::EXPECT_PROFILE_FILE = if p == Prof::Dev { *b"/dev.yml" } else { *b"/prd.yml" } };
@@ -162,7 +177,7 @@ fn c18_profile_from_environment() {
     let vals = any_values();
     unsafe { fv::VALUES = vals };
     let e: u8 = nd::u8_below(4);
-    unsafe { ENV_PROFILE = e };
+    set_env_profile(e);
     unsafe { LAST_PROFILE_ASKED = 0 };
     vtrace(&vals, None, e);
     unsafe { fv::EXPECT_PROFILE_FILE = if e == 2 { *b"/prd.yml" } else { *b"/dev.yml" } };
